@@ -48,7 +48,7 @@ func c09Check(cs c09Case) (ok bool, sig, expected, observed string) {
 var c09Atoms = []string{
 	"0", "1", "(-1)", "0.5", `""`, `"a"`, "true", "nil", "[]", "[1]", "{}", "{a: 1}", // reduced set: first 12
 	"9223372036854775807", "0.0", `"é"`, "false", "[[1]]", `{a: {b: 1}}`,
-	"i", "f", "s", "e", "b", "n", "is", "as", "m", "st", "ps", "pi", "npi", "nps", "nsl", "nm", "sp", "zz", "st.Inner", "sn.Inner", "min", "i8", "u64", "f32",
+	"i", "f", "s", "e", "b", "n", "is", "as", "m", "st", "ps", "pi", "npi", "nps", "nsl", "nm", "sp", "zz", "st.Inner", "sn.Inner", "min", "i8", "u64", "f32", "rows", "rows[1]", "rows[2].A",
 }
 
 const c09Reduced = 12
@@ -95,6 +95,17 @@ var c09Positions = []struct{ name, pre, post string }{
 	{"array-elem", "\n{{ [1, ", "] }}"},
 	{"object-value", "\n{{ {k: ", "}.k }}"},
 	{"call-arg", "\n{{ \"abc\".at(", ") }}"},
+	// directive arguments that are normally string literals
+	{"use-arg", "\n@use(", ")"},
+	{"reserve-arg", "\n@reserve(", ")"},
+	{"insert-name", "\n@insert(", ")x@end"},
+	{"insert-value", "\n@insert(\"a\", ", ")"},
+	{"component-name", "\n@component(", ")"},
+	{"component-args", "\n@component(\"c\", ", ")"},
+	{"slot-name", "\n@component(\"c\")@slot(", ")x@end@end"},
+	{"dump-second", "\n@dump(1, ", ")"},
+	{"nested-index", "\n{{ as[is[", "]] }}"},
+	{"postfix-then-dot", "\n{{ (", ")++.k }}"},
 }
 
 func c09Run(c *Ctx) {
